@@ -662,10 +662,44 @@ func ruleScoChain(c *Ctx, r *R) {
 	// ---- unshadow ----
 	if fd := c.Func("lookup.unshadow"); fd != nil {
 		ps := c.pathsOf("lookup.unshadow")
+		// the iterative form — for { alias := "~"+key; n, ok := m[alias]; if !ok { return };
+		// m[key] = n; delete(m, alias); key = alias } — is the recursive form with the tail call
+		// spelled as `key = alias` + the back edge: its body is read as the function body, and a
+		// continuing iteration contributes a "rec" event on the value key is left with
+		loopRec := map[*State]string{}
+		var loop *ast.ForStmt
+		for _, st := range fd.Body.List {
+			if f, ok := st.(*ast.ForStmt); ok && f.Cond == nil && f.Init == nil && f.Post == nil {
+				loop = f
+			}
+		}
+		if loop != nil {
+			var keyObj types.Object
+			for _, f := range fd.Type.Params.List {
+				for _, nm := range f.Names {
+					keyObj = c.Info.Defs[nm]
+				}
+			}
+			lin := newInterp(c)
+			lst := newState()
+			lin.bindParams(lst, fd.Recv, fd.Type, nil)
+			ps = nil
+			for _, p := range lin.execStmts(loop.Body.List, []*State{lst}) {
+				if p.Done == "" || p.Done == "continue" {
+					if nk := p.Vars[keyObj]; nk != nil {
+						loopRec[p] = nk.String()
+					}
+				}
+				ps = append(ps, p)
+			}
+		}
 		found := false
 		for _, p := range ps {
 			cs := condStrings(p)
 			evs := events(p, "lookup.unshadow")
+			if rk, ok := loopRec[p]; ok {
+				evs = append(evs, ev{"rec", rk, loop})
+			}
 			if strings.HasPrefix(cs, "!") || cs == "" {
 				bad := idx(evs, "store", "key") >= 0
 				r.check(!bad, "unshadow absent", c.Pos(fd), "nothing restored when there is no outer binding", "lookup.unshadow stores a binding for the name although no outer binding exists")
@@ -1016,22 +1050,57 @@ func scoLocalTypes(c *Ctx, r *R, clause *ast.CaseClause, conds string, pos strin
 	// the resolver lets a later variable shadow the type: it compares the variable's slot with
 	// the slot count recorded at the type declaration
 	shadow := false
-	ast.Inspect(resolver.Body, func(n ast.Node) bool {
-		be, ok := n.(*ast.BinaryExpr)
-		if !ok {
+	for _, rfd := range c.withHelpers(resolver) {
+		rfd := rfd
+		// the slot of the variable: c.Locals.Index(name), or a temporary read from the locals table
+		isSlot := func(e ast.Expr) bool {
+			src := nosp(c.Src(e))
+			if strings.Contains(src, ".Locals.Index(") || strings.Contains(src, ".Locals.keyToIndex[") {
+				return true
+			}
+			id, ok := unparen(e).(*ast.Ident)
+			if !ok {
+				return false
+			}
+			found := false
+			ast.Inspect(rfd.Body, func(k ast.Node) bool {
+				as, ok := k.(*ast.AssignStmt)
+				if !ok {
+					return true
+				}
+				for i, l := range as.Lhs {
+					if lid, ok := l.(*ast.Ident); ok && c.Obj(lid) == c.Obj(id) {
+						rhs := as.Rhs[0]
+						if len(as.Rhs) == len(as.Lhs) {
+							rhs = as.Rhs[i]
+						}
+						rs := nosp(c.Src(rhs))
+						if i == 0 && (strings.Contains(rs, ".Locals.Index(") || strings.Contains(rs, ".Locals.keyToIndex[")) {
+							found = true
+						}
+					}
+				}
+				return true
+			})
+			return found
+		}
+		ast.Inspect(rfd.Body, func(n ast.Node) bool {
+			be, ok := n.(*ast.BinaryExpr)
+			if !ok {
+				return true
+			}
+			switch be.Op {
+			case token.GEQ, token.GTR, token.LSS, token.LEQ:
+			default:
+				return true
+			}
+			l, rr := nosp(c.Src(be.X)), nosp(c.Src(be.Y))
+			if isSlot(be.X) && strings.Contains(rr, ".slots") || isSlot(be.Y) && strings.Contains(l, ".slots") {
+				shadow = true
+			}
 			return true
-		}
-		switch be.Op {
-		case token.GEQ, token.GTR, token.LSS, token.LEQ:
-		default:
-			return true
-		}
-		l, rr := nosp(c.Src(be.X)), nosp(c.Src(be.Y))
-		if strings.Contains(l, ".Locals.Index(") && strings.Contains(rr, ".slots") || strings.Contains(rr, ".Locals.Index(") && strings.Contains(l, ".slots") {
-			shadow = true
-		}
-		return true
-	})
+		})
+	}
 	// a type declared in a function is also in scope in that function's func literals (a type is
 	// not a captured variable: it lives in a global): the resolver does not skip the entries of an
 	// enclosing function, it answers them (unless the literal has a name of its own that hides it)
@@ -1056,6 +1125,34 @@ func scoLocalTypes(c *Ctx, r *R, clause *ast.CaseClause, conds string, pos strin
 		})
 		return true
 	})
+	if !enclosing {
+		// the owner test may live in a new predicate helper ("does a variable hide this entry"):
+		// then no entry is skipped on its owner anywhere, and the resolver answers the entry the
+		// predicate lets through
+		skipsOnOwner, ownerTested, answers := false, false, false
+		for _, rfd := range c.withHelpers(resolver) {
+			ast.Inspect(rfd.Body, func(n ast.Node) bool {
+				switch x := n.(type) {
+				case *ast.IfStmt:
+					cs := nosp(c.Src(x.Cond))
+					if strings.Contains(cs, ".locals!=") || strings.Contains(cs, ".locals==") {
+						ownerTested = true
+						for _, st := range x.Body.List {
+							if br, ok := st.(*ast.BranchStmt); ok && br.Tok == token.CONTINUE {
+								skipsOnOwner = true
+							}
+						}
+					}
+				case *ast.ReturnStmt:
+					if rfd == resolver && len(x.Results) == 2 && isIdent(x.Results[1], "true") && strings.HasSuffix(nosp(c.Src(x.Results[0])), ".global") {
+						answers = true
+					}
+				}
+				return true
+			})
+		}
+		enclosing = ownerTested && !skipsOnOwner && answers && len(c.withHelpers(resolver)) > 1
+	}
 	r.check(enclosing, "local type visible in func literals", c.Pos(resolver), "a type of an enclosing function resolves inside a func literal",
 		resolver.Name.Name+" skips the local types of enclosing functions: inside `mk := func() *T { return &T{n: 1} }` a function-local T resolves at package level — silently the package's T (0 instead of 0.5, a foreign field), or NEWSTRUCT fails with `Object is nil` when there is none")
 	r.check(shadow, "variable shadows local type", c.Pos(resolver), "a variable declared after the type wins",
@@ -1078,14 +1175,27 @@ func scoLocalTypes(c *Ctx, r *R, clause *ast.CaseClause, conds string, pos strin
 	records := false
 	for _, lab := range []string{"type", "struct"} {
 		if tsc := c.mustSwitch().ByLabel[lab]; tsc != nil {
+			roots := []ast.Node{tsc.Clause}
 			ast.Inspect(tsc.Clause, func(n ast.Node) bool {
-				if as, ok := n.(*ast.AssignStmt); ok && len(as.Lhs) == 1 && strings.HasSuffix(nosp(c.Src(as.Lhs[0])), ".localTypes") {
-					if call, ok := unparen(as.Rhs[0]).(*ast.CallExpr); ok && c.CalleeName(call) == "builtin.append" {
-						records = true
+				if call, ok := n.(*ast.CallExpr); ok {
+					if o := c.Callee(call); o != nil && c.isNewHelper(o) {
+						if h := c.DeclOf(o); h != nil && h.Body != nil {
+							roots = append(roots, h.Body)
+						}
 					}
 				}
 				return true
 			})
+			for _, root := range roots {
+				ast.Inspect(root, func(n ast.Node) bool {
+					if as, ok := n.(*ast.AssignStmt); ok && len(as.Lhs) == 1 && strings.HasSuffix(nosp(c.Src(as.Lhs[0])), ".localTypes") {
+						if call, ok := unparen(as.Rhs[0]).(*ast.CallExpr); ok && c.CalleeName(call) == "builtin.append" {
+							records = true
+						}
+					}
+					return true
+				})
+			}
 		}
 	}
 	r.check(records, "local type recorded", pos, "a function-local type declaration enters the table", "no compile-case records a function-local type declaration in the local-type table: the name is never resolved to the type")
